@@ -184,6 +184,7 @@ type World struct {
 	evSeq uint64
 
 	seq    uint64
+	serial uint64
 	epoch  uint64
 	hash   uint64
 	Quiet  bool // quiet phase: no time skipping, no faults (harness sets it)
@@ -1190,6 +1191,18 @@ func (f *Flag) Wait(deadline int64) bool {
 //
 //go:norace
 func ResetSpin() { W.cur.since = 0 }
+
+// NextSerial returns 1, 2, 3, ... within the current run (for shims that must hand out distinct but
+// reproducible values, e.g. hash seeds); 0-based counting restarts with every run.
+//
+//go:norace
+func NextSerial() uint64 {
+	if W == nil {
+		return 1
+	}
+	W.serial++
+	return W.serial
+}
 
 // Kick tells the scheduler that a channel changed state outside rewritten code (e.g. context cancel).
 //
